@@ -12,6 +12,13 @@ NOTE_COMMON = ("Trusted base: go/packages + go/types type-check of /repo's worki
 
 # id -> (technique, level text, level note, design ref)
 CLAIMS = {
+    "C11": (
+        "edge-dominance facts at the gate's success return (header read, non-empty, secret of the parsed id fetched without error, compared equal), who-reads of the secret, def-use of every session id reaching IRC state or a proposal in DispatchPublic's call closure, filter dominance at the encode site, who-may-call / closed world of routes over the whole module",
+        "Decides the code shape of authentication for every route and every path: a route that reaches session data or an admin action without passing the credential comparison cannot exist in a tree that passes "
+        "(gate correctness, every session-scoped sink behind the gate on its nil-error edge, delivery filter on the authenticated id, admin gate, handlers only callable from the dispatchers, only the two dispatchers registered, private routes unreachable publicly). "
+        "Not decided: that the stored secret equals the one handed out (value flow through raft) and timing side channels.",
+        NOTE_COMMON,
+        "DESIGN.md section 3, C11"),
     "C02": (
         "CFG must-pass-through within the compaction loop (fold dominates every removal per iteration, horizon edge), reaching-definition check of the index passed to Marshal / lastSnapshotState / robustSnapshot after the last fold, dominance chains in Apply and Restore, writer/reader agreement of the snapshot stream container, def-use slice of the horizon",
         "Partial: decides six structural necessary conditions of compaction (fold-before-drop for exactly the folded entry and only below the horizon; state filed under an index defined after the last fold; "
